@@ -127,7 +127,7 @@ def to_trace(run, tid):
             break           # the test edited the statechart while executing it: outside the recorded structure
         base = {'ev': 0, 'par': 0, 'dl': 0, 'gv': [False] * ntr, 'cfail': 0, 'mfail': 0, 'some': False, 'rtime': 0,
                 'steps': [], 'exc': '', 'eobj': 0, 'eidx': 0, 'log': [], 'chk': 1, 'ign': bool(run['init'].get('ignore_contract')),
-                'stale': 0, 'opq': True, 'hasl2': False, 'l2': [], 'mt': [], 'ref': dict(NOREF)}
+                'stale': 0, 'opq': True, 'tp': dict(ent=[], exi=[], fir=[], con=[], trs=[]), 'hasl2': False, 'l2': [], 'mt': [], 'ref': dict(NOREF)}
         if r['t'] == 'queue':
             t0 = rank[r['time']]
             pre = dict(st, time=t0)
